@@ -334,6 +334,34 @@ def generate(tier):
             src += '#[derive(Educe)]\n#[educe(Default(new))]\npub union Ty {\n    #[educe(%s)]\n    pub f0: %s,\n    pub f1: u8,\n}\n' % (SPELL[sp].format(e=expr), ty)
             src += 'pub fn check(r: &mut Rep) {\n    let x = Ty::default();\n    r.ck(%s, 0, &|| "default() does not hold the expression".to_string());\n    let x = Ty::new();\n    r.ck(%s, 1, &|| "new() does not hold the expression".to_string());\n}\n' % (probe, probe)
             cases.append(Case('C08|union-expr-nodefault|%d|%d' % (k, sp), src, {'field_type': ty, 'expression': expr}, expect='accept', run=True, depth=2))
+    # generic items: the default value of a field whose type depends on a parameter (const, lifetime, type) - `[u8; N]: Default` holds for concrete small N only,
+    # so the impl has to carry its own bound whatever kinds of parameter the item has
+    GEN = (('const', '<const CN: usize>', '<3>', '[u8; CN]', '[0u8; 3]', 'CN + 1', '4usize'),
+           ('lt+const', "<'a, const CN: usize>", "<'static, 3>", "(Option<&'a u8>, [u16; CN])", '(None, [0u16; 3])', 'CN * 2', '6usize'),
+           ('2const', '<const CW: usize, const CH: usize>', '<2, 3>', '[[i32; CW]; CH]', '[[0i32; 2]; 3]', 'CW * CH', '6usize'),
+           ('ty+const', '<T, const CN: usize>', '<u16, 3>', '([T; CN], T)', '([0u16; 3], 0u16)', 'CN', '3usize'),
+           ('ty', '<T>', '<u16>', '(T, Option<T>)', '(0u16, None)', '7', '7usize'),
+           ('lt', "<'a>", "<'static>", "Option<&'a str>", 'None', '7', '7usize'))
+    for gname, gen, inst, fty, fdef, expr, eval_ in GEN:
+        for kind in ('sn', 'st', 'en', 'et'):
+            for sp in range(1, 5):
+                at = '#[educe(%s)] ' % SPELL[sp].format(e=expr)
+                if kind == 'sn':
+                    decl = 'pub struct Ty%s { pub a: %s, %spub b: usize, pub c: %s }' % (gen, fty, at, fty)
+                    want = 'Ty { a: %s, b: %s, c: %s }' % (fdef, eval_, fdef)
+                elif kind == 'st':
+                    decl = 'pub struct Ty%s(pub %s, %spub usize, pub %s);' % (gen, fty, at, fty)
+                    want = 'Ty(%s, %s, %s)' % (fdef, eval_, fdef)
+                elif kind == 'en':
+                    decl = 'pub enum Ty%s { V0, #[educe(Default)] V1 { a: %s, %sb: usize }, V2(%s) }' % (gen, fty, at, fty)
+                    want = 'Ty::V1 { a: %s, b: %s }' % (fdef, eval_)
+                else:
+                    decl = 'pub enum Ty%s { V0(%s), #[educe(Default)] V1(%susize, %s) }' % (gen, fty, at, fty)
+                    want = 'Ty::V1(%s, %s)' % (eval_, fdef)
+                src = '#[derive(Educe, Debug, PartialEq)]\n#[educe(Default(new))]\n%s\n' % decl
+                src += ('pub fn check(r: &mut Rep) {\n    let want: Ty%s = %s;\n    let x = <Ty%s>::default();\n    r.ck(x == want, 0, &|| format!("default() = {:?}, expected {:?}", x, want));\n'
+                        '    let y = <Ty%s>::new();\n    r.ck(y == want, 1, &|| format!("new() = {:?}, expected {:?}", y, want));\n}\n') % (inst, want, inst, inst)
+                cases.append(Case('C08|generic|%s|%s|%d' % (gname, kind, sp), src, {'generics': gen, 'kind': kind, 'field_type': fty, 'expression': expr}, expect='accept', run=True, depth=2))
     # attribute contexts
     for cid in ('ints/u16', 'str/String', 'call/V', 'int/DI'):
         for sp in range(5):
